@@ -302,6 +302,7 @@ def env₀_ok : EnvOk env₀ := by
     rw [hs b] at h
     simp only [Option.some.injEq] at h
     subst h
+    unfold TotalOk
     decide
 
 def plugin (name : String) (args : List (String × String)) : IRPlugin :=
